@@ -31,6 +31,16 @@ def run(cmd, **kw):
 def main():
     args = [a for a in sys.argv[1:] if not a.startswith("--")]
     sid, prop, src = args[0], args[1], args[2]
+    if os.path.abspath(src).startswith(os.path.join(VERIF, "seeded")):
+        # stored seed: demonstrations are kept with a .txt suffix; restore the names in a scratch directory
+        tmp = "/tmp/seedsrc-" + sid
+        shutil.rmtree(tmp, ignore_errors=True)
+        os.makedirs(tmp)
+        for f in os.listdir(src):
+            if f == "meta.json":
+                continue
+            shutil.copy(os.path.join(src, f), os.path.join(tmp, f[:-4] if f.endswith(".go.txt") else f))
+        src = tmp
     wt = "/tmp/seedwt-" + sid
     run(["git", "-C", "/repo", "worktree", "remove", "--force", wt])
     p = run(["git", "-C", "/repo", "worktree", "add", "--detach", wt, "HEAD"])
